@@ -165,6 +165,10 @@ func initSymIntrinsics() {
 			m.opts.CheckDeadlock = m.asTerm(a[0]).C != 0
 			return nil
 		},
+		"RacyScope": func(m *Machine, c *frame, fn *ssa.Function, a []value) value {
+			m.racyScope = strArg(m, a[0])
+			return nil
+		},
 		"MapOrderNondet": func(m *Machine, c *frame, fn *ssa.Function, a []value) value {
 			m.mapOrderNondet = m.asTerm(a[0]).C != 0
 			return nil
